@@ -779,6 +779,31 @@ fn main() {
         }
         Some("ranges") => cmd_ranges(&a),
         Some("hist") => cmd_hist(&a),
+        Some("frontends") => {
+            let (elems, _) = build_universe(&a);
+            let mut sources: Vec<(String, String)> = elems.into_iter().map(|e| (e.id, e.text)).collect();
+            // erroneous and unterminated inputs of several sizes (the CLI must hand them back unchanged)
+            let long = "a".repeat(3000);
+            for (i, t) in [
+                "#let x = (".to_string(), "text $ a".to_string(), format!("#let\n{long}"), format!("#{{\n{long}"), long.clone(),
+                format!("= T\n\n{long}"), String::new(), "no newline".to_string(), "#let   x=1".to_string(), "\n\n\n".to_string(),
+                "#import \"a.typ\": zeta, alpha, m.b as c\n".to_string(), "a\r\nb\r\n".to_string(),
+            ]
+            .iter()
+            .enumerate()
+            {
+                sources.push((format!("fe-extra:{i}"), t.clone()));
+            }
+            let r = cli::run_frontends(
+                &sources,
+                &PathBuf::from(a.get("bin", cli::default_bin().to_str().unwrap())),
+                Path::new(&a.get("work", "/verif/work/fe-scratch")),
+                Path::new(&a.get("outdir", "work/fe")),
+                a.num("shards", 8) as usize,
+                a.num("seed", 0),
+            );
+            println!("{}", r);
+        }
         Some("cli") => {
             let r = cli::run_scenarios(
                 Path::new(&a.get("scen", "")),
